@@ -122,10 +122,10 @@ Fixpoint span (p : Z -> bool) (s : str) : str * str :=
   | c :: r => if p c then let '(a, b) := span p r in (c :: a, b) else ([], s)
   end.
 
-(* re.findall('(?i)TZID=(?P<name>[^:]+):', s): leftmost non-overlapping matches; the literal part
-   matches in any letter case (ASCII).  At a position that starts with 'TZID=' the greedy [^:]+
-   takes the whole run of non-colons; it matches iff that run is non-empty and a ':' follows (no
-   shorter run can be followed by ':').  After a match the scan resumes behind the ':' (skip
+(* re.findall('(?i)TZID=(?P<name>[^:;]+)[:;]', s) (5fe9b57): leftmost non-overlapping matches; the
+   literal part matches in any letter case (ASCII).  At a position that starts with 'TZID=' the
+   greedy [^:;]+ takes the whole run of characters other than ':' and ';'; it matches iff that run
+   is non-empty and a ':' or ';' follows (no shorter run can be followed by one).  After a match the scan resumes behind the ':' (skip
    counter). *)
 Fixpoint startswith_ci (p s : str) : bool :=
   match p, s with
@@ -142,7 +142,7 @@ Fixpoint tzid_scan (skip : nat) (s : str) : list str :=
     | S k => tzid_scan k r
     | O =>
       if startswith_ci s_TZIDeq s then
-        let '(name, after) := span (fun c => negb (c =? 58)) (skipn 5 s) in
+        let '(name, after) := span (fun c => negb ((c =? 58) || (c =? 59))) (skipn 5 s) in
         match name, after with
         | _ :: _, _ :: _ => name :: tzid_scan (4 + List.length name + 1)%nat r
         | _, _ => tzid_scan O r
